@@ -23,6 +23,7 @@ Inductive qop :=
 | QM (s : nat) (ops : list mop)        (* calls on one object, through ExprOps.mstep *)
 | QRemVars (s : nat) (t : etarget) (vs : list nat)      (* Expression::remove_variables *)
 | QSubstE (s : nat) (t : etarget) (v : nat) (m c : Qc)  (* Expression::substitute_variable *)
+| QFixVars (s dst : nat) (vs : list nat) (asg : list Qc)   (* fix_variables(first,last,assignment) into dst *)
 | QCopy (a b : nat)
 | QMoveClear (a b : nat)               (* a takes b's value, b is then cleared *)
 | QSwap (a b : nat)
@@ -35,11 +36,51 @@ Definition edit (t : etarget) (f : mexpr -> mexpr) (q : mcqm) : mcqm :=
   | ECon c => cqm_edit_con c f q
   end.
 
+(* ConstrainedQuadraticModel::fix_variables (the copying bulk path) and fix_variables_expr:
+   old_to_new marks the fixed variables, the others are numbered in order; every expression is
+   rebuilt: offset, then one add_linear per unfixed variable in the source's internal order (a
+   fixed one goes to the offset), then the interactions - both fixed: offset, one fixed: linear,
+   none fixed: add_quadratic_back, which under its ordering promise is add_quadratic *)
+Definition old_to_new (n : nat) (vs : list nat) : list (option nat) :=
+  snd (fold_left (fun acc i => if existsb (Nat.eqb i) vs then (fst acc, snd acc ++ [None])
+                               else (S (fst acc), snd acc ++ [Some (fst acc)]))
+                 (seq 0 n) (0%nat, [])).
+Definition asg_of (vs : list nat) (asg : list Qc) (v : nat) : Qc :=
+  match find (fun p => (fst p =? v)%nat) (rev (combine vs asg)) with Some p => snd p | None => 0 end.
+
+Definition fix_expr (vt' : nat -> vartype) (o2n : list (option nat)) (a : nat -> Qc) (e : mexpr) : mexpr :=
+  let e0 := m_add_offset (e_off e) e_empty in
+  let e1 := fold_left (fun d iv =>
+                         let l := nth (fst iv) (e_lin e) 0 in
+                         match nth (snd iv) o2n None with
+                         | None => m_add_offset (l * a (snd iv)) d
+                         | Some nv => m_add_linear nv l d
+                         end)
+                      (combine (seq 0 (length (e_vars e))) (e_vars e)) e0 in
+  fold_left (fun d t =>
+               let u := nth (fst (fst t)) (e_vars e) 0%nat in
+               let v := nth (snd (fst t)) (e_vars e) 0%nat in
+               match nth u o2n None, nth v o2n None with
+               | None, None => m_add_offset (a u * a v * snd t) d
+               | None, Some nv => m_add_linear nv (a u * snd t) d
+               | Some nu, None => m_add_linear nu (a v * snd t) d
+               | Some nu, Some nv => m_add_quadratic vt' nu nv (snd t) d
+               end)
+            (e_quad e) e1.
+
+Definition cqm_fix_variables (vs : list nat) (asg : list Qc) (q : mcqm) : mcqm :=
+  let n := length (m_info q) in
+  let o2n := old_to_new n vs in
+  let info' := map snd (filter (fun p => negb (existsb (Nat.eqb (fst p)) vs)) (combine (seq 0 n) (m_info q))) in
+  let f := fix_expr (vt_info info') o2n (asg_of vs asg) in
+  mkM info' (f (m_obj q)) (map (fun k => mc_set_e k (f (mc_e k))) (m_cons q)).
+
 Definition qstep (st : qstate) (o : qop) : qstate :=
   match o with
   | QM s ops => qput st s (mrun ops (qget st s))
   | QRemVars s t vs => qput st s (edit t (m_remove_variables vs) (qget st s))
   | QSubstE s t v m c => qput st s (edit t (m_substitute v m c) (qget st s))
+  | QFixVars s dst vs asg => qput st dst (cqm_fix_variables vs asg (qget st s))
   | QCopy a b => qput st a (qget st b)
   | QMoveClear a b => qput (qput st a (qget st b)) b m_empty
   | QSwap a b => qput (qput st a (qget st b)) b (qget st a)
